@@ -579,6 +579,9 @@ def main(ctx: Ctx) -> int:
         {"reactions": [(["Si", "O"], ["SiO"]), (["S+", "e-"], ["S"]), (["SiO", "S+"], ["SO+", "Si"]), (["Si+", "S"], ["Si", "S+"])], "required": [],
          "origin": "random"},
         {"reactions": [(["S+", "SiH"], ["HS+", "Si"]), (["Si+", "e-"], ["Si"]), (["S", "Si+"], ["S+", "Si"])], "required": ["SO"], "origin": "random"},
+        # a species name the element list cannot parse (Ti is not a default element): the network is refused -- never built without it
+        {"reactions": [(["TiO", "H"], ["Ti", "OH"]), (["Ti", "H3+"], ["Ti+", "H2", "H"]), (["H", "H"], ["H2"])], "required": [], "unparseable": ["TiO", "Ti", "Ti+"],
+         "origin": "random"},
         # several species that take part in nothing (consecutive empty Jacobian rows), with the pattern file
         {"reactions": [(["C", "O"], ["CO"]), (["CO", "He+"], ["C+", "O", "He"])], "required": ["N", "N2", "D"], "force_pattern": True, "origin": "random"},
         {"reactions": [(["H", "H"], ["H2"])], "required": ["He", "He+", "He++", "D"], "force_pattern": True, "origin": "random"},
@@ -662,8 +665,17 @@ def main(ctx: Ctx) -> int:
                 net.add_reaction(Reaction(list(r_), list(p_), alpha=1.0e-10 * len(desc["reactions"]), reaction_type=ReactionType.GAS_TWOBODY))
             else:
                 net = prebuilt.get(ci) or build_network(desc)
+            if desc.get("unparseable"):
+                held = sorted(x.name for x in net.species)
+                if pid in ("C01", "C04"):
+                    ctx.violation(f"{pid}|UnparseableSpeciesDropped|build", f"a network naming {desc['unparseable']} (not parseable with the default element list) was built "
+                                  f"with species {held}: the reactions lost those species silently", {"desc": {k: v for k, v in desc.items() if k != 'N'}})
+                continue
             obs = observe(ctx, net, desc, ci, with_pattern=(ci % 3 == 0 or bool(desc.get("force_pattern"))))
         except Exception as e:   # noqa
+            if desc.get("unparseable"):
+                cov["refused_unparseable_species"] = cov.get("refused_unparseable_species", 0) + 1
+                continue
             if desc.get("absent_modifier_species"):
                 cov["refused_modifier_for_absent_species"] = cov.get("refused_modifier_for_absent_species", 0) + 1
                 continue          # a refusal is what the property allows here
